@@ -124,12 +124,31 @@ ExplainedByTrivialNegation(orig, res) ==
   IN /\ Cardinality(H) <= 7
      /\ \E m \in choices : (\E h \in H : m[h] # h) /\ WF5(Redirect(orig, m)) /\ TT(Redirect(orig, m)) = TT(res)
 
+(* Named deviation Dev_IncompleteCutFamily (known finding): the algorithm derives the member
+   gates of a cut's cone from the cuts OTHER nodes were given.  If the supplied family is not
+   closed - some gate w strictly inside the cone of a cut K of node v has no cut contained in
+   K (the enumerator truncates each node's list at cut_limit) - w is missed, its pattern
+   defaults to 0, and a wrong replacement follows.  c.cuts is the recorded family. *)
+RECURSIVE ConeRec(_, _, _, _)
+ConeRec(c, K, front, seen) ==
+  IF front = {} THEN seen
+  ELSE LET nxt == ((UNION {OpSet(c, l) : l \in front}) \ K) \ seen
+       IN  ConeRec(c, K, nxt, seen \cup nxt)
+FamilyIncomplete(c, cuts) ==
+  \E v \in DOMAIN cuts : \E j \in DOMAIN cuts[v] :
+     LET K == SeqSet(cuts[v][j]) IN
+     /\ v \notin K /\ Cardinality(K) > 1
+     /\ \E w \in ConeRec(c, K, {v}, {v}) \ {v} :
+           w \notin DOMAIN cuts \/ ~(\E i \in DOMAIN cuts[w] : SeqSet(cuts[w][i]) \subseteq K)
+
 C04Fails(c) ==
   LET orig == c.orig
       res == c.res
       hasRes == c.exc = "" \/ (c.exc = "FailedValidationError" /\ c.has_res)
-      explained == DevP = "Dev_TrivialNegationAsLeaf" /\ hasRes /\ WFFails(res) = {} /\ res.i = orig.i
-                     /\ Len(res.o) = Len(orig.o) /\ ExplainedByTrivialNegation(orig, res)
+      explained ==
+        \/ DevP = "Dev_TrivialNegationAsLeaf" /\ hasRes /\ WFFails(res) = {} /\ res.i = orig.i
+              /\ Len(res.o) = Len(orig.o) /\ ExplainedByTrivialNegation(orig, res)
+        \/ DevP = "Dev_IncompleteCutFamily" /\ FamilyIncomplete(orig, c.cuts)
   IN
   IF c.exc = "FailedValidationError" THEN (IF explained THEN {} ELSE {"reported-a-failed-validation"})
   ELSE IF c.exc # "" THEN
